@@ -91,7 +91,12 @@ fn adv_execute(deps: DepsMut, env: Env, _info: MessageInfo, msg: AdvExec) -> Std
                         }
                     }
                     Act::Loan { amount, script } => {
-                        resp = resp.add_message(WasmMsg::Execute { contract_addr: cfg.vault.clone(), funds: vec![],
+                        // loans whose amount is 3 mod 7 carry coins of a denom the vault has nothing to do with (they must not
+                        // count as repayment of anything): the model is unaffected, foreign coins are not part of its state
+                        let junk = deps.querier.query_balance(env.contract.address.clone(), "ujunk").map(|c| c.amount).unwrap_or_default();
+                        // (a small amount, so that several loans dispatched from one handler can all be funded)
+                        let attach = if amount.u128() % 7 == 3 && junk.u128() >= 1_000_000_000 { Uint128::new((amount.u128() / 2).min(1_000_000)) } else { Uint128::zero() };
+                        resp = resp.add_message(WasmMsg::Execute { contract_addr: cfg.vault.clone(), funds: if attach.is_zero() { vec![] } else { vec![coin(attach.u128(), "ujunk")] },
                             msg: to_json_binary(&vmsg::ExecuteMsg::FlashLoan { amount,
                                 msg: to_json_binary(&AdvExec::Run { loan: amount, script })? })? });
                     }
@@ -339,6 +344,13 @@ pub fn deploy(cw20: bool, fees: (u128, u128, u128), funds: [u128; 5]) -> Result<
     accounts[I_ADV] = adv.to_string();
     let mut w = VaultWorld { app, cw20, asset, factory, vault: vault_addr, lp, router, adv, accounts, fees };
     if funds[4] > 0 { w.transfer_asset(FOWNER, &w.adv.to_string(), funds[4]).map_err(|e| format!("{:#}", e))?; }
+    // the borrower contract also holds coins of a foreign denom (attached to some of its FlashLoan calls)
+    for a in [FOWNER, USERS[0], USERS[1], USERS[2]] {
+        if w.app.wrap().query_balance(a, "ujunk").map(|c| !c.amount.is_zero()).unwrap_or(false) {
+            let _ = w.app.send_tokens(Addr::unchecked(a), w.adv.clone(), &[coin(1_000_000_000_000, "ujunk")]);
+            break;
+        }
+    }
     Ok(w)
 }
 
